@@ -120,8 +120,26 @@ class Calls:
 
     def bind(self, ex, fi, args, kwargs, env):
         pos, defaults, vararg, kwarg = fi.params()
+        kwonly = fi.kwonly()
+        kwargs = dict(kwargs)
+        for name, d in kwonly:
+            if name in kwargs:
+                env.vars[name] = kwargs.pop(name)
+            elif d is not None:
+                saved = ex.cur_module
+                ex.cur_module = fi.module
+                env.vars[name] = ex.eval(d, Env())
+                ex.cur_module = saved
+            else:
+                ex.raise_('TypeError', 'missing keyword-only argument %s' % name)
         if kwarg:
-            raise Unsupported('**kwargs parameter')
+            # **kw: the keyword arguments no parameter takes, as a new dict
+            extra = {k: v for k, v in kwargs.items() if k not in pos}
+            kwargs = {k: v for k, v in kwargs.items() if k in pos}
+            r = ex.new_dict_from([(ex.str_lit(k), ex.to_val(v)) for k, v in extra.items()]) if hasattr(ex, 'new_dict_from') else None
+            if r is None:
+                raise Unsupported('**kwargs parameter')
+            env.vars[kwarg] = L.DictV(r)
         flat = []
         pack = None
         for a in args:
